@@ -78,49 +78,61 @@ def _subtree(job):
 
 
 def run_all(targets, jobs):
-    from pyvc.driver import merge_results
+    """Every function is verified in its own forked process while slots are free (else in this process); within a
+    function the exploration forks again at branch points (pyvc/forker.py). At most `jobs` processes are alive."""
+    import os
+    import pickle
 
-    if jobs <= 1:
-        firsts = [_expand(t) for t in targets]
-        parts = {t: [f] for t, f in zip(targets, firsts)}
-        for t, f in zip(targets, firsts):
-            work = f.pending if (f.pending and not f.error and not f.out_of_reach) else []
-            while work:
-                r = _subtree((t, work))[1]
-                parts[t].append(r)
-                work = r.pending if not (r.error or r.out_of_reach) else []
-    else:
-        ctx = mp.get_context("fork")
-        with ctx.Pool(jobs) as pool:
-            firsts = pool.map(_expand, targets, chunksize=1)
-            parts = {t: [f] for t, f in zip(targets, firsts)}
-            pending = {t: list(f.pending) for t, f in zip(targets, firsts) if f.pending and not f.error and not f.out_of_reach}
-            # rounds: every job explores a bounded number of paths and hands the rest back, so that large sub-trees
-            # are spread over the pool instead of pinning one process
-            while pending:
-                jobs_ = []
-                for t, work in pending.items():
-                    n = max(1, min(len(work), 3 * jobs))
-                    for i in range(n):
-                        ch = work[i::n]
-                        if ch:
-                            jobs_.append((t, ch))
-                pending = {}
-                for t, r in pool.imap_unordered(_subtree, jobs_, chunksize=1):
-                    parts[t].append(r)
-                    if r.pending and not r.error and not r.out_of_reach:
-                        pending.setdefault(t, []).extend(r.pending)
-                    r.pending = []
-    out = []
-    for t in targets:
-        smt2 = {}
-        for p in parts[t]:
-            smt2.update(getattr(p, "smt2", {}))
-        r = merge_results(parts[t])
+    from pyvc import forker
+    from pyvc.driver import FunctionResult, strip_formulas, verify_function
+
+    P, REG, opts = _G["P"], _G["REG"], _G["opts"]
+    forker.enable(jobs)
+    results = {}
+    kids = {}
+
+    def one(t):
+        try:
+            r = verify_function(P, REG, REG.contracts[t], opts)
+        except Exception as e:  # pragma: no cover
+            r = FunctionResult(t)
+            r.error = f"crash {type(e).__name__}: {e}\n{traceback.format_exc()[-2000:]}"
+        strip_formulas(r)
         j = r.to_json()
-        j["smt2"] = dict(list(smt2.items())[:3])
-        out.append(j)
-    return out
+        j["smt2"] = dict(list((getattr(r, "smt2", None) or {}).items())[:3])
+        return j
+
+    try:
+        for t in targets:
+            got = forker.SLOTS.acquire(block=False) if forker.ENABLED else False
+            if got:
+                pid = os.fork()
+                if pid == 0:
+                    forker.IS_CHILD = False  # a function-level worker: returns its JSON through a file, not child_exit
+                    forker.CHILDREN = []
+                    j = one(t)
+                    path = os.path.join(forker.TMP, f"fn-{os.getpid()}.pkl")
+                    with open(path + ".tmp", "wb") as f:
+                        pickle.dump(j, f)
+                    os.rename(path + ".tmp", path)
+                    forker.SLOTS.release()
+                    os._exit(0)
+                kids[pid] = t
+            else:
+                results[t] = one(t)
+        for pid, t in kids.items():
+            os.waitpid(pid, 0)
+            path = os.path.join(forker.TMP, f"fn-{pid}.pkl")
+            if os.path.exists(path):
+                with open(path, "rb") as f:
+                    results[t] = pickle.load(f)
+            else:
+                r = FunctionResult(t)
+                r.error = "the process verifying this function died without a result"
+                results[t] = r.to_json()
+    finally:
+        forker.disable()
+    return [results[t] for t in targets]
 
 
 def known_findings():
